@@ -9,11 +9,14 @@ far (`cands`); in checker mode each op line carries the implementation's observa
 structure State where
   cands : List Chan := []
   everOpened : Bool := false
+  /-- sink clones handed out by `notification_sink()`: the stream number each belongs to -/
+  sinks : List Nat := []
 
 def init : State := {}
 
 def resWord : SendRes → String
   | .ok => "ok" | .clogged => "clogged" | .noconn => "noconn" | .nopeer => "nopeer" | .waiting => "waiting"
+  | .blocked => "blocked"
 
 def dedup {α} [BEq α] (l : List α) : List α :=
   l.foldl (fun acc c => if acc.contains c then acc else acc ++ [c]) []
@@ -118,7 +121,7 @@ def step (st : State) (line : String) : State × String :=
     let cfg : Cfg := { syncCap := (g "sync" 4).max 1, asyncCap := (g "async" 2).max 1, notifCap := (g "notif" 4).max 1
                        pipeCap := g "cap" 64, maxSize := g "max" 256 }
     let c : Chan := { cfg := cfg }
-    ({ cands := [c] }, "ok")
+    ({ cands := [c], sinks := [] }, "ok")
   | _ =>
   match st.cands with
   | [] => (st, "bad-op")
@@ -126,7 +129,7 @@ def step (st : State) (line : String) : State × String :=
     let each (f : Chan → Chan × String) : State × String := settle st obs (st.cands.map f)
     match ts with
     | ["open"] =>
-      if c0.alive then (st, "ignored") else ({ cands := dedup (st.cands.map reopen), everOpened := true }, "ok")
+      if c0.alive then (st, "ignored") else ({ st with cands := dedup (st.cands.map reopen), everOpened := true }, "ok")
     | ["sync", seq, size] =>
       match seq.toNat?, size.toNat? with
       | some seq, some size =>
@@ -140,6 +143,24 @@ def step (st : State) (line : String) : State × String :=
         each fun c =>
           let (c, r) := asyncSend c ⟨1, seq, size⟩
           (c, resWord r)
+      | _, _ => (st, "bad-op")
+    | ["sink"] =>
+      match getSink c0 with
+      | some g => ({ st with sinks := st.sinks ++ [g] }, s!"ok sink={st.sinks.length}")
+      | none => (st, "none")
+    | [op, k, seq, size] =>
+      match k.toNat?, seq.toNat?, size.toNat? with
+      | some k, some seq, some size =>
+        match st.sinks[k]? with
+        | none => (st, "ignored")
+        | some g =>
+          if op = "csync" then each fun c => let (c, r) := sinkSync c g ⟨0, seq, size⟩; (c, resWord r)
+          else if op = "casync" then each fun c => let (c, r) := sinkAsync c g ⟨1, seq, size⟩; (c, resWord r)
+          else (st, "bad-op")
+      | _, _, _ => (st, "bad-op")
+    | ["hasync", seq, size] =>
+      match seq.toNat?, size.toNat? with
+      | some seq, some size => each fun c => let (c, r) := asyncOnce c ⟨1, seq, size⟩; (c, resWord r)
       | _, _ => (st, "bad-op")
     | ["run"] => stepRun st obs
     | "rread" :: rest =>
